@@ -232,6 +232,16 @@ func (c *pathCtx) path(v ssa.Value) string {
 		return "next(" + c.path(x.Iter) + ")"
 	case *ssa.SliceToArrayPointer:
 		return c.path(x.X)
+	case *ssa.Select:
+		var st []string
+		for _, s := range x.States {
+			d := "recv:"
+			if s.Dir == types.SendOnly {
+				d = "send:"
+			}
+			st = append(st, d+c.path(s.Chan))
+		}
+		return "select[" + strings.Join(st, ", ") + "]"
 	}
 	return fmt.Sprintf("%T", v)
 }
